@@ -53,7 +53,7 @@ class _Lim:
 
 def _mk_limits(lim, L):
     out = []
-    for k, v in (lim or {}).items():
+    for k, v in ((lim or {}).items() if isinstance(lim or {}, dict) else lim):
         if isinstance(v, tuple):
             out.append(_Lim(k, _limit_hours(v[0]), L, only=set(v[1])))
         else:
